@@ -1073,9 +1073,27 @@ def _equal(a, b):
 
 
 @H("nonzero", "argmax", "argmin", "max", "min", "sort", "argsort", "unique", "round", "int", "long",
-   "bool", "floor", "ceil", "sign", "where", "isnan", "isinf", "isfinite", "allclose")
+   "bool", "floor", "ceil", "sign", "isnan", "isinf", "isfinite", "allclose")
 def _valdep(*a, **k):
     raise ValueDependent("value-dependent primitive on a symbolic tensor")
+
+
+@H("where")
+def _where(cond, x=None, y=None, **k):
+    """torch.where(cond, x, y) with a concrete boolean condition selects entry-wise (broadcast); a symbolic condition
+    or the one-argument form is value-dependent"""
+    if isinstance(cond, SymTensor) or x is None or y is None or k:
+        raise ValueDependent("value-dependent primitive on a symbolic tensor")
+    c = np.asarray(cond.detach().cpu().numpy() if isinstance(cond, torch.Tensor) else cond)
+    if c.dtype != bool:
+        raise ValueDependent("where on a non-boolean condition")
+    X, Y = _obj(x), _obj(y)
+    shape = np.broadcast_shapes(c.shape, np.shape(X), np.shape(Y))
+    cb, Xb, Yb = np.broadcast_to(c, shape), np.broadcast_to(X, shape), np.broadcast_to(Y, shape)
+    out = np.empty(shape, dtype=object)
+    for i in np.ndindex(*shape):
+        out[i] = Xb[i] if cb[i] else Yb[i]
+    return _new(out)
 
 
 @H("bernoulli")
@@ -1520,8 +1538,8 @@ def _full_like(x, fill_value, **k):
 
 
 @H("tensordot")
-def _tensordot(a, b, dims=2):
-    return _new(np.tensordot(_obj(a), _obj(b), axes=dims))
+def _tensordot(a, b, dims=2, out=None):
+    return _out(np.tensordot(_obj(a), _obj(b), axes=dims), out, "tensordot")
 
 
 @H("outer")
